@@ -476,7 +476,7 @@ def _(process_program: "Any", process_res: "Any") -> "None":
 
 # ---------------------------------------------------------------- worker-pool mode (not verified as a concurrent program):
 # only the sequential glue that hands the batch size to update_stats
-@profile("pool-glue", slice=True)
+@profile("pool-glue", slice=True, immutable_globals="hephaestus.__pool")
 def _():
     modifies(".*")
 
@@ -486,6 +486,47 @@ def _(res: "Any") -> "Any":
     use_profile("pool-glue")
     # the statistics of a result set are updated with the number of programs of THAT set (the last batch may be partial)
     site_call("update_stats", "counts-the-programs-of-this-batch", same(arg1, batch))
+
+
+# the life cycle of the worker pool: ghost state 0 = open, 1 = closed (no new tasks), 2 = closed and joined (every submitted
+# task has finished and its callback has run), 3 = terminated (outstanding tasks are killed, their callbacks never run)
+global_var("hephaestus.__pool", "Int")
+
+
+@external("multiprocessing.Pool")
+def _(processes: "Any") -> "Any":
+    modifies("__pool")
+    ensures("open", __pool == 0)
+
+
+@external("<any>.close")
+def _(self: "Any") -> "None":
+    modifies("__pool")
+    ensures("closed", __pool == ite(old(__pool) == 0, 1, old(__pool)))
+
+
+@external("<any>.join")
+def _(self: "Any") -> "None":
+    """Pool.join() waits for the workers to exit: after close() that means every task and callback has run"""
+    modifies("__pool")
+    ensures("joined", __pool == ite(old(__pool) == 1, 2, old(__pool)))
+
+
+@external("<any>.terminate")
+def _(self: "Any") -> "None":
+    modifies("__pool")
+    ensures("terminated", __pool == 3)
+
+
+@contract("hephaestus.run_parallel")
+def _() -> "None":
+    """C15 'after any number of batches passed + failed equals the number of programs processed': in worker-pool mode the
+    statistics are updated by the callback of the LAST submitted check_oracle task too, so when the batch loop ends normally
+    the pool is closed and joined -- never terminated (Pool.__exit__ terminates: a `with pool:` around the loop kills the
+    outstanding oracle checks).  Only the sequential shape of the shutdown is verified; the batch loop is opaque here and
+    is assumed not to close / terminate the pool (its closures only submit tasks: syntactic obligation in props/C15.py)."""
+    use_profile("pool-glue")
+    ensures("normal-end-closes-and-joins", implies(not exceptional(), __pool == 2))
 
 
 # ---------------------------------------------------------------- argument validation the driver relies on
